@@ -855,13 +855,13 @@ func (e *Engine) valueEq(st *State, x, y Value) Term {
 	// an interface holding a handle/pointer compared with the bare handle/pointer (contracts do this)
 	if xi, ok := x.(VIface); ok {
 		switch y.(type) {
-		case VAbs, VPtr, VMap:
+		case VAbs, VPtr, VMap, VSym:
 			return e.valueEq(st, xi.V, y)
 		}
 	}
 	if yi, ok := y.(VIface); ok {
 		switch x.(type) {
-		case VAbs, VPtr, VMap:
+		case VAbs, VPtr, VMap, VSym:
 			return e.valueEq(st, x, yi.V)
 		}
 	}
